@@ -133,3 +133,30 @@ Theorem C05_voucher_handlers_are_the_sources : forall k v,
   HandlerEq.runs_like (HandlerEq.with_self (fun self => GenHandlers.gen_SendVoucherResult self k v)) (Node.send_voucher_result k v).
 Proof. exact HandlerEq.voucher_handlers_are_source. Qed.
 Print Assumptions C05_voucher_handlers_are_the_sources.
+
+(* how an incoming request is handled -- validation before anything is created (acceptRequest), the checks
+   and revalidation of a restart request (restartRequest), the dispatch by kind (OnRequestReceived), the
+   validator lookup of a restart (validateRestart) and the events that record a validation outcome -- as
+   written in Node.v, runs for every interpreter state like the programs regenerated from
+   impl/receiving_requests.go and impl/events.go on every run: same result, same "an error occurred", same
+   state and outputs *)
+Theorem C05_request_handlers_are_the_sources : forall k m c vr s,
+  HandlerEq.same_val (Node.run (Node.bind (Node.exec Node.ISelf) (fun self => GenHandlers.gen_acceptRequest self k m)) s) (Node.run (Node.accept_request k m) s) /\
+  HandlerEq.same_val3 (Node.run (Node.bind (Node.exec Node.ISelf) (fun self => GenHandlers.gen_restartRequest self k m)) s) (Node.run (Node.restart_request k m) s) /\
+  HandlerEq.same_run2 (Node.run (GenHandlers.gen_OnRequestReceived (Node.n_self (Node.s_node s)) k m) s) (Node.run (Node.on_request_received k m) s) /\
+  HandlerEq.same_val (Node.run (GenHandlers.gen_validateRestart c) s) (Node.run (Node.validate_restart c) s) /\
+  HandlerEq.same_run (Node.run (GenHandlers.gen_recordRejectedValidationEvents k vr) s) (Node.run (Node.record_rejected k vr) s) /\
+  HandlerEq.same_run (Node.run (GenHandlers.gen_recordAcceptedValidationEvents c vr) s) (Node.run (Node.record_accepted c vr) s).
+Proof. exact HandlerEq.request_handlers_are_source. Qed.
+Print Assumptions C05_request_handlers_are_the_sources.
+
+(* what a response of the responder does on the initiator (cancel; voucher result recorded; rejection fails the
+   channel; Accept / Restart; an un-paused Complete is the responder's final word, a paused one begins
+   finalization; otherwise the responder's pause flag follows the message, and ErrPause is returned when this
+   side is still paused), and what a pause / resume request does on the responder: Node.v's programs run like
+   those regenerated from impl/events.go OnResponseReceived and impl/receiving_requests.go receiveUpdateRequest *)
+Theorem C05_response_handlers_are_the_sources : forall k m s,
+  HandlerEq.same_run (Node.run (HandlerEq.with_self (fun self => GenHandlers.gen_OnResponseReceived self k m)) s) (Node.run (Node.on_response_received k m) s) /\
+  HandlerEq.same_run2 (Node.run (Node.bind (Node.exec Node.ISelf) (fun self => GenHandlers.gen_receiveUpdateRequest self k m)) s) (Node.run (Node.receive_update_request k m) s).
+Proof. exact HandlerEq.response_handlers_are_source. Qed.
+Print Assumptions C05_response_handlers_are_the_sources.
